@@ -15,6 +15,11 @@ CHECKS = {
    text="Each message's real EncodeAware/DecodeAware pair is executed symbolically with the protocol revision as ONE symbolic int (so every revision, hence both sides of every threshold, is covered by the version-comparison forks) and all field values symbolic; per path the solver decides (a) encoded bytes == bytes of an independent reference encoder with its own threshold table, (b) decode(encode(x)) == x with the fields absent at that revision zero, (c) the reader is exactly exhausted.",
    ref="DESIGN.md §4 C17",
    note="bounds: integers all <128 plus each integer field alone over its full 64-bit range (quick: first field only for Query); strings of tied length 0..1/2 with free contents; <=1 setting and <=1 parameter (quick); OpenTelemetry span invalid (otel stubbed); Query decode below 54429 is rejected by design and not asserted; the reference encoder is trusted as the oracle (written from the protocol description, thresholds cross-checked once)"),
+ "C01": dict(
+   level="model_checking",
+   text="For each column type (31 generated fixed-width codecs, String, Bytes, Bool, UUID, FixedString(N), Nothing, Point, Interval, Enum8/16, DateTime, DateTime64(p)) and for Array/Nullable/LowCardinality/Map/Tuple compositions up to depth 2, the real EncodeBlock -> DecodeBlock path is executed symbolically with all cell values, string bytes, pre-existing buffer bytes and the protocol revision symbolic; the solver decides: prefix untouched, bytes independent of the buffer's prior content, typed decode == appended values, inferred decode (Results.Auto) == same name/type/values, reader exhausted. Both the default (unsafe) and the purego build are encoded for the leaf codecs.",
+   ref="DESIGN.md §4 C01",
+   note="bounds: rows<=2 (quick)/3-4 (thorough), inner arrays/maps <=2, strings <=1-2 bytes, buffer prefix in {0,3,8} bytes, depth<=2; outside: dictionaries >3 entries (key-width switches), ColMap.Append(map) iteration order, JSON, non-UTC zones; Array(Array(T)), FixedString(N) with N not a power of two, Bytes, Point and Map are not inferable by the library and are checked typed only; reflect calls in ColAuto.Infer go through a method-set model; bswap.swap64 (asm) is modelled natively"),
 }
 
 NA = {
